@@ -1,7 +1,7 @@
 """C04 (value semantics of ST::string), C18 (failed operations), string-level C19: family `strpool`."""
 from registry_api import T
 
-FAMILIES = {"strpool": dict(src="strpool.cpp")}
+FAMILIES = {"strpool": dict(src="strpool.cpp", ops=["shist", "sfault"])}
 
 PROPS = {
     "C04": dict(
